@@ -133,6 +133,22 @@ def check_ext(ctx, e, stratum="extension"):
         if v2 is None or v2.name != v.name or \
                 v2.val._to_serial_root().model_dump(mode="json") != v.val._to_serial_root().model_dump(mode="json"):
             bad("ext-roundtrip-value", name, repr(v), repr(v2))
+    # ---- a loaded copy annotated in place (misc of one operation) leaves every other operation, and every other
+    # copy loaded from the same document, as they were
+    if len(x.operations) >= 1:
+        ctx.count("monitor:loaded-copies-independent")
+        y1 = hext.Extension.from_json(s1)
+        names = sorted(y1.operations)
+        y1.operations[names[0]].misc["annotated-after-load"] = True
+        for other in names[1:]:
+            if "annotated-after-load" in y1.operations[other].misc:
+                bad("misc-shared-between-operations", other, "untouched", dict(y1.operations[other].misc))
+        y2 = hext.Extension.from_json(s1)
+        if sort_reqs(json.loads(y2.to_json())) != sort_reqs(d1):
+            bad("later-load-affected-by-earlier-copy", "from_json(s) after another copy was annotated", "the document",
+                "differs")
+        if sort_reqs(json.loads(y.to_json())) != sort_reqs(d1):
+            bad("earlier-load-affected-by-later-copy", "the first loaded copy", "the document", "differs")
     # ---- owner invariant
     ctx.count("monitor:owner-invariant")
     for holder in (x, y):
